@@ -125,10 +125,26 @@ impl SymbolsExportsModule {
         name: &String,
         files: &mut R,
     ) -> Option<Rc<SymbolExport>> {
+        self.get_value_visiting(name, files, &mut Vec::new())
+    }
+
+    // `visited`: the files whose `export *` chain is being searched (export-star cycles)
+    fn get_value_visiting<R: FileManager>(
+        &self,
+        name: &String,
+        files: &mut R,
+        visited: &mut Vec<BffFileName>,
+    ) -> Option<Rc<SymbolExport>> {
         let known = self.named_values.get(name).cloned().or_else(|| {
             for it in &self.extends {
+                if visited.contains(it) {
+                    continue;
+                }
+                visited.push(it.clone());
                 let file = files.get_or_fetch_file(it)?;
-                let res = file.symbol_exports.get_value(name, files);
+                let res = file
+                    .symbol_exports
+                    .get_value_visiting(name, files, visited);
                 if let Some(it) = res {
                     return Some(it.clone());
                 }
@@ -160,10 +176,25 @@ impl SymbolsExportsModule {
         name: &String,
         files: &mut R,
     ) -> Option<Rc<SymbolExport>> {
+        self.get_type_visiting(name, files, &mut Vec::new())
+    }
+
+    fn get_type_visiting<R: FileManager>(
+        &self,
+        name: &String,
+        files: &mut R,
+        visited: &mut Vec<BffFileName>,
+    ) -> Option<Rc<SymbolExport>> {
         let known = self.named_types.get(name).cloned().or_else(|| {
             for it in &self.extends {
+                if visited.contains(it) {
+                    continue;
+                }
+                visited.push(it.clone());
                 let file = files.get_or_fetch_file(it)?;
-                let res = file.symbol_exports.get_type(name, files);
+                let res = file
+                    .symbol_exports
+                    .get_type_visiting(name, files, visited);
                 if let Some(it) = res {
                     return Some(it.clone());
                 }
